@@ -190,6 +190,11 @@ def contract(m: Model, op, recursive=True, full=False):
             if in_scope(dd, recursive):
                 R.add(ev("created", True, dd))
                 dirmod(paths[lvl])
+        for lvl, ln in (op[5] if len(op) > 5 else []):  # symbolic links to a directory outside the tree: not directories
+            ll = paths[lvl] + "/" + ln
+            if in_scope(ll, recursive):
+                R.add(ev("created", False, ll))
+                dirmod(paths[lvl])
     elif k == "rmdir":
         p = op[1]
         if in_scope(p, recursive):
@@ -287,6 +292,8 @@ def apply(m: Model, op):
             m.add(paths[lvl] + "/" + fn, "f")
         for lvl, dn in (op[4] if len(op) > 4 else []):
             m.add(paths[lvl] + "/" + dn, "d")
+        for lvl, ln in (op[5] if len(op) > 5 else []):
+            m.add(paths[lvl] + "/" + ln, "s")
     elif k in ("unlink", "rmdir", "rmtree"):
         m.remove(op[1])
     elif k == "rename":
@@ -340,7 +347,7 @@ def valid(m: Model, op, paced=True, paced_out=True):
     if k == "burst":
         if not valid(m, ["makedirs", op[1], op[2]], paced):
             return False
-        extra = op[4] if len(op) > 4 else []
+        extra = list(op[4] if len(op) > 4 else []) + list(op[5] if len(op) > 5 else [])
         for lvl, fn in list(op[3]) + list(extra):
             if lvl >= len(op[2]) or (lvl + 1 < len(op[2]) and op[2][lvl + 1] == fn):
                 return False
@@ -523,7 +530,7 @@ def gen_ops(rng: random.Random, m: Model, n, names=("a", "b", "c"), max_depth=3,
             depth_left = max_depth - d.count("/")
             if depth_left >= 1:
                 chain = [rng.choice(names) for _ in range(rng.randrange(1, depth_left + 1))]
-                files, extra = [], []
+                files, extra, links = [], [], []
                 for lvl in range(len(chain)):
                     for fn in names:
                         if lvl + 1 < len(chain) and chain[lvl + 1] == fn:
@@ -533,8 +540,10 @@ def gen_ops(rng: random.Random, m: Model, n, names=("a", "b", "c"), max_depth=3,
                             files.append([lvl, fn])
                         elif r < 0.55:
                             extra.append([lvl, fn])  # a sibling directory next to the chain
-                if files or extra:
-                    op = [k, d, chain, files, extra]
+                        elif r < 0.62:
+                            links.append([lvl, fn])  # a link to a directory (os.walk lists it among the directories)
+                if files or extra or links:
+                    op = [k, d, chain, files, extra] + ([links] if links else [])
         elif k == "rmdir":
             ds = [q for q in m.dirs_in(ROOT) if q != ROOT and not m.children(q)]
             if ds:
